@@ -14,7 +14,7 @@ EXTENDS ScriptVerify, EvBase
 CtxOf(j) == [version |-> BFromBytes(FromHex(j.version)), locktime |-> BFromBytes(FromHex(j.locktime)), sequence |-> BFromBytes(FromHex(j.sequence))]
 FlagsOf(j) == {j[k] : k \in 1..Len(j)}
 StackOf(j) == [k \in 1..Len(j) |-> FromHex(j[k])]
-Unmodelled(v) == v \in {"SIGOP_UNMODELLED", "TAPROOT_UNMODELLED"}
+Unmodelled(v) == v \in {"SIGOP_UNMODELLED", "TAPROOT_KEYPATH_UNMODELLED"}
 
 Expected(e) ==
     CASE e.op = "eval" ->
